@@ -34,6 +34,7 @@ import (
 	"github.com/spq/pkappa2/internal/tools"
 	"github.com/spq/pkappa2/internal/tools/bitmask"
 	pcapmetadata "github.com/spq/pkappa2/internal/tools/pcapMetadata"
+	"github.com/spq/pkappa2/internal/verifhook"
 )
 
 const (
@@ -621,6 +622,7 @@ func (mgr *Manager) invalidateTags(updatedStreams, resetStreams, addedStreams bi
 }
 
 func (mgr *Manager) importPcapJob(filenames []string, nextStreamID uint64, existingIndexes []*index.Reader, existingIndexesReleaser indexReleaser) {
+	verifhook.Point(mgr, "import.begin", filenames, nextStreamID, existingIndexes)
 	processedFiles, usedNewStreamIDs, createdIndexes, updatedStreams, resetStreams, addedStreams, err := mgr.builder.FromPcap(mgr.PcapDir, filenames, existingIndexes)
 	if err != nil {
 		log.Printf("importPcapJob(%q) failed: %s", filenames, err)
@@ -639,6 +641,7 @@ func (mgr *Manager) importPcapJob(filenames []string, nextStreamID uint64, exist
 		newStreamCount += idx.StreamCount()
 		newPacketCount += idx.PacketCount()
 	}
+	verifhook.Point(mgr, "import.done", filenames, nextStreamID, createdIndexes)
 	mgr.jobs <- func() {
 		mgr.allStreams = allStreams
 		existingIndexesReleaser.release(mgr)
@@ -683,6 +686,7 @@ func (mgr *Manager) importPcapJob(filenames []string, nextStreamID uint64, exist
 			},
 		})
 		mgr.triggerPcapProcessedWebhooks(filenames[:processedFiles])
+		verifhook.Point(mgr, "import.applied", filenames[:processedFiles], nextStreamID, createdIndexes)
 	}
 }
 
@@ -742,6 +746,7 @@ outer:
 }
 
 func (mgr *Manager) mergeIndexesJob(offset int, indexes []*index.Reader, releaser indexReleaser) {
+	verifhook.Point(mgr, "merge.begin", offset, indexes)
 	mergedIndexes, err := index.Merge(mgr.IndexDir, indexes)
 	if err != nil {
 		indexFilenames := []string{}
@@ -759,6 +764,7 @@ func (mgr *Manager) mergeIndexesJob(offset int, indexes []*index.Reader, release
 		streamsDiff -= idx.StreamCount()
 		packetsDiff -= idx.PacketCount()
 	}
+	verifhook.Point(mgr, "merge.done", offset, indexes, mergedIndexes)
 	mgr.jobs <- func() {
 		// replace old indexes if successfully created
 		if len(mergedIndexes) == 0 || err != nil {
@@ -787,10 +793,12 @@ func (mgr *Manager) mergeIndexesJob(offset int, indexes []*index.Reader, release
 				PacketRecordCount: mgr.nPacketRecords,
 			},
 		})
+		verifhook.Point(mgr, "merge.applied", offset, indexes, mergedIndexes)
 	}
 }
 
 func (mgr *Manager) updateTagJob(name string, t tag, tagDetails map[string]query.TagDetails, converters map[string]index.ConverterAccess, indexes []*index.Reader, releaser indexReleaser) {
+	verifhook.Point(mgr, "tag.begin", name, t.definition, indexes)
 	err := func() error {
 		q, err := query.Parse(t.definition)
 		if err != nil {
@@ -812,6 +820,7 @@ func (mgr *Manager) updateTagJob(name string, t tag, tagDetails map[string]query
 		t.Matches = bitmask.LongBitmask{}
 	}
 	t.Uncertain = bitmask.LongBitmask{}
+	verifhook.Point(mgr, "tag.done", name, t.definition, indexes)
 	mgr.jobs <- func() {
 		// don't touch the tag if it was modified
 		if ot, ok := mgr.tags[name]; ok && ot.definition == t.definition {
@@ -835,6 +844,7 @@ func (mgr *Manager) updateTagJob(name string, t tag, tagDetails map[string]query
 		mgr.startMergeJobIfNeeded()
 		releaser.release(mgr)
 		mgr.updatedTagsToSignal[name] = struct{}{}
+		verifhook.Point(mgr, "tag.applied", name, t.definition, indexes)
 	}
 }
 
@@ -1422,6 +1432,7 @@ func (mgr *Manager) startConverterJobIfNeeded() {
 }
 
 func (mgr *Manager) convertStreamJob(allConverters []*converters.CachedConverter, allStreamIDs []*bitmask.LongBitmask, indexes []*index.Reader, releaser indexReleaser) {
+	verifhook.Point(mgr, "convert.begin", allConverters, allStreamIDs, indexes)
 	type job struct {
 		streamID  uint64
 		converter int
@@ -1537,6 +1548,7 @@ func (mgr *Manager) convertStreamJob(allConverters []*converters.CachedConverter
 		}
 	}
 
+	verifhook.Point(mgr, "convert.done", allConverters, allStreamIDs, indexes)
 	mgr.jobs <- func() {
 		mgr.converterJobRunning = false
 
@@ -1569,6 +1581,7 @@ func (mgr *Manager) convertStreamJob(allConverters []*converters.CachedConverter
 		mgr.startTaggingJobIfNeeded()
 		mgr.startConverterJobIfNeeded()
 		releaser.release(mgr)
+		verifhook.Point(mgr, "convert.applied", allConverters, allStreamIDs, indexes)
 	}
 }
 
